@@ -308,7 +308,7 @@ func ruleDeadline(c *Ctx, a *tcpAnchors) {
 					return nm == "time.Now" || nm == "(context.Context).Deadline"
 				}
 				if t, _, _, ok := eng.FieldLoad(v); ok {
-					return strings.HasSuffix(t, "streamHandler")
+					return t == streamHandlerT(c)
 				}
 				_, isC := v.(*ssa.Const)
 				return isC
@@ -406,16 +406,16 @@ func ruleOneCache(c *Ctx) {
 	c.Check("ONECACHE", "one-replay-history-per-process", "-", len(sites) == 1, fmt.Sprintf("%d NewReplayCache call sites in the server command (must be exactly 1: a second history would let a handshake be replayed on another listener, service or config generation)", len(sites)))
 	// the field holding it
 	field := ""
-	for _, fl := range p.StructFields(mainPkg + ".OutlineServer") {
+	for _, fl := range p.StructFields(mainM(c).serverT) {
 		if eng.TypeName(fl.Type()) == "service.ReplayCache" {
 			field = fl.Name()
 		}
 	}
 	if field == "" {
-		c.Undecided("ONECACHE", "anchor:server-replay-field", "-", "OutlineServer has no ReplayCache field")
+		c.Undecided("ONECACHE", "anchor:server-replay-field", "-", "the server command has no struct with a ReplayCache field")
 		return
 	}
-	for _, st := range p.FieldStores(mainPkg+".OutlineServer", field) {
+	for _, st := range p.FieldStores(mainM(c).serverT, field) {
 		if st.Val == nil {
 			continue // address taken (expected: &s.replayCache)
 		}
@@ -454,7 +454,7 @@ func ruleOneCache(c *Ctx) {
 		arg := wrc.Call.Args[0]
 		okF := false
 		if fa, ok := arg.(*ssa.FieldAddr); ok {
-			if t, f, _, ok := eng.FieldOf(fa); ok && t == mainPkg+".OutlineServer" && f == field {
+			if t, f, _, ok := eng.FieldOf(fa); ok && t == mainM(c).serverT && f == field {
 				okF = true
 			}
 		}
@@ -481,18 +481,8 @@ func runC08(c *Ctx) {
 // C08.SELECT
 func ruleSelect(c *Ctx) {
 	p := c.P
-	mark, ok1 := constInt(c, "service.serverSaltMarkLen")
-	ent, ok2 := constInt(c, "service.minSaltEntropy")
-	if !ok1 || !ok2 {
-		c.Undecided("SELECT", "anchor:constants", "-", "serverSaltMarkLen / minSaltEntropy not found")
-		return
-	}
 	specs := sdkCipherSpecs(c)
 	c.Floor("SELECT", "cipher specs in the SDK", len(specs), 4)
-	for _, s := range specs {
-		marked := s.SaltSize-mark >= ent
-		c.Check("SELECT", "spec:"+s.Name, s.Pos, marked == (s.SaltSize >= 20), fmt.Sprintf("salt=%d: marked=%v||with serverSaltMarkLen=%d and minSaltEntropy=%d the cipher spec %s (salt %d) is marked=%v but the property requires marking exactly for salts of at least 20 bytes", s.SaltSize, marked, mark, ent, s.Name, s.SaltSize, marked))
-	}
 	mk := p.Fn("service.MakeCipherEntry")
 	if mk == nil {
 		c.Undecided("SELECT", "anchor:MakeCipherEntry", "-", "MakeCipherEntry not found")
@@ -549,6 +539,11 @@ func ruleSelect(c *Ctx) {
 		return
 	}
 	c.CheckAt("SELECT", short(mk)+":threshold-is-20", sel, thr == 20, fmt.Sprintf("the marking generator is selected for salt sizes >= %d, not >= 20", thr))
+	// the decision as the code takes it, for every cipher the SDK offers
+	for _, s := range specs {
+		marked := s.SaltSize >= thr
+		c.Check("SELECT", "spec:"+s.Name, s.Pos, marked == (s.SaltSize >= 20), fmt.Sprintf("salt=%d: marked=%v||with the selection threshold %d the cipher spec %s (salt %d) is marked=%v but the property requires marking exactly for salts of at least 20 bytes", s.SaltSize, marked, thr, s.Name, s.SaltSize, marked))
+	}
 	// which generator on which edge: every origin of the entry's SaltGenerator is the marking generator created behind the
 	// ">= threshold" edge or the plain random generator loaded behind the other edge
 	sf := sel.Parent()
@@ -658,7 +653,7 @@ func ruleConstruct(c *Ctx) {
 // C08.AGREE
 func ruleAgree(c *Ctx) {
 	p := c.P
-	mark, _ := constInt(c, "service.serverSaltMarkLen")
+	var mark int64 = -1
 	inSvc := func(h *ssa.Function) bool { return eng.PkgPathOf(h) != eng.Mod+"/service" }
 	isCompare := func(n string) bool {
 		return n == "bytes.Equal" || n == "crypto/hmac.Equal" || n == "crypto/subtle.ConstantTimeCompare"
@@ -708,6 +703,10 @@ func ruleAgree(c *Ctx) {
 	if tagFn == nil || splitFn == nil {
 		return
 	}
+	if k, ok := saltMarkLen(c, splitFn); ok {
+		mark = k
+	}
+	c.Check("AGREE", short(splitFn)+":mark-length-is-a-positive-constant", p.Pos(splitFn.Pos()), mark > 0, "the split helper does not split at len(salt) minus a constant mark length")
 	isSplit := func(idx int) func(ssa.Value) bool {
 		return func(v ssa.Value) bool {
 			cc, i, ok := eng.AsResult(v)
